@@ -88,6 +88,10 @@ fn reward_of(r: &Replay, t: usize, window: (u64, u64), ratio: (u64, u64)) -> (u6
 
 /// Replays `chain` (chain[0] = genesis) and reports every disagreement with the blocks' own fields.
 fn replay(cons: &Consensus, chain: &[BlockView], tag: &str, label: &Value, report: &mut Report) {
+    replay_with(cons, chain, tag, label, report, PRIMARY)
+}
+
+fn replay_with(cons: &Consensus, chain: &[BlockView], tag: &str, label: &Value, report: &mut Report, primary_epoch: u64) {
     let window = (cons.tx_proposal_window().closest(), cons.tx_proposal_window().farthest());
     let delay = cons.finalization_delay_length() as usize;
     let ratio = (cons.proposer_reward_ratio().numer(), cons.proposer_reward_ratio().denom());
@@ -95,7 +99,7 @@ fn replay(cons: &Consensus, chain: &[BlockView], tag: &str, label: &Value, repor
     let mut r = Replay { blocks: vec![], live: HashMap::new(), burned: 0, base: 0 };
     for (n, b) in chain.iter().enumerate() {
         let index = n as u64 % EPOCH_LEN;
-        let primary = PRIMARY / EPOCH_LEN + if index < PRIMARY % EPOCH_LEN { 1 } else { 0 };
+        let primary = primary_epoch / EPOCH_LEN + if index < primary_epoch % EPOCH_LEN { 1 } else { 0 };
         let g2 = secondary_epoch / EPOCH_LEN + if index < secondary_epoch % EPOCH_LEN { 1 } else { 0 };
         // transactions: fees and occupied capacity movements
         let mut commits = vec![];
@@ -178,7 +182,16 @@ fn replay(cons: &Consensus, chain: &[BlockView], tag: &str, label: &Value, repor
             let t = n - delay;
             let (want, proposal_part) = reward_of(&r, t, window, ratio);
             report.evaluations += 1;
-            if t == 1 && proposal_part > 0 && paid + proposal_part == want {
+            // a reward too small to create the cell of the miner's lock is not paid: the cellbase is empty
+            let cell_needs = occupied(&packed::CellOutput::new_builder().lock(r.blocks[t].miner_lock.clone()).build(), 0);
+            if want < cell_needs {
+                if paid != 0 || !cb.outputs().is_empty() {
+                    report.violation("reward/unissuable-reward-paid", format!("{tag}: the cellbase of block {n} creates {paid} shannons; the reward of block {t} ({want}) cannot hold a cell of its miner's lock ({cell_needs}) and must not be paid"), label.clone());
+                } else {
+                    report.nontrivial.insert(fp(&(tag, n, "burnt")));
+                }
+                r.burned += want;
+            } else if t == 1 && proposal_part > 0 && paid + proposal_part == want {
                 // block 1 is not paid for the proposals it was the first to make
                 report.violation("reward/block-1-proposer-share-unpaid", format!("{tag}: the cellbase of block {n} creates {paid} shannons; the reward of block 1 is {want}: the proposer shares ({proposal_part}) of the transactions block 1 was the first to propose are missing (RewardCalculator::proposal_reward clamps the 'earlier proposer' block number to 1, so block 1's own proposals count as proposed before)"), label.clone());
                 r.burned += proposal_part;
@@ -188,7 +201,7 @@ fn replay(cons: &Consensus, chain: &[BlockView], tag: &str, label: &Value, repor
                 report.nontrivial.insert(fp(&(tag, n)));
             }
             let lock = cb.outputs().get(0).map(|o| o.lock());
-            if lock.as_ref().map(|l| l.as_slice().to_vec()) != Some(r.blocks[t].miner_lock.as_slice().to_vec()) {
+            if want >= cell_needs && lock.as_ref().map(|l| l.as_slice().to_vec()) != Some(r.blocks[t].miner_lock.as_slice().to_vec()) {
                 report.violation("reward/lock", format!("{tag}: the cellbase of block {n} does not pay the miner of block {t}"), label.clone());
             }
         } else if n > 0 && paid != 0 {
@@ -242,7 +255,7 @@ pub fn meta(_tier: Tier) -> Meta {
     Meta {
         id: "C06",
         level: "exploration",
-        rule: "flat world with 4-block epochs and a primary epoch reward that leaves a remainder; main chain of 22 blocks and a 10-block fork from block 6, built by the forge (ckb's calculators, every block fully verified as a tip). Assignments: a transaction proposed by two different blocks inside the window of its commit, proposed only through an uncle, committed at distance 2 and at distance 4, proposed - expired - proposed again - committed, two and three commits in one block, a child spending its parent's output in the next block, blocks proposing without any commit, fees from 1 shannon-odd values up to 0.5 CKB, outputs with data and type scripts (occupied capacity). Assignment family: three fee-paying transactions on a 13-block chain, every assignment of (first proposing block 2..4, a second proposer 1 or 2 blocks later or none, commit distance 2..4) for two of them x three assignments of the third (quick: 4 x 4 x 1). For EVERY block of EVERY chain an independent replay (plain integer arithmetic over a cell map, written from the issuance rules) must reproduce: cellbase capacity = primary(t) + g2(t)*U(t-1)/C(t-1) + sum(fee - floor(fee*4/10)) over t's commits + sum floor(fee*4/10) over commits in (t+close..t+far) whose first proposer inside their window is t, for t = n - 5 (nothing before block 6); cellbase lock = t's miner lock; DAO field (C, AR, S, U) = accumulation rule on the parent; U = occupied capacity of the live cells; live capacity + rewards and fee shares still to be paid = C - S.",
+        rule: "flat world with 4-block epochs and a primary epoch reward that leaves a remainder; main chain of 22 blocks and a 10-block fork from block 6, built by the forge (ckb's calculators, every block fully verified as a tip). Assignments: a transaction proposed by two different blocks inside the window of its commit, proposed only through an uncle, committed at distance 2 and at distance 4, proposed - expired - proposed again - committed, two and three commits in one block, a child spending its parent's output in the next block, blocks proposing without any commit, fees from 1 shannon-odd values up to 0.5 CKB, outputs with data and type scripts (occupied capacity). Assignment family: three fee-paying transactions on a 13-block chain, every assignment of (first proposing block 2..4, a second proposer 1 or 2 blocks later or none, commit distance 2..4) for two of them x three assignments of the third (quick: 4 x 4 x 1). Unissuable-reward family (a world with a block reward of about 100 CKB): block 1 or block 2 names a miner lock whose cell needs 741 CKB, the finalising block must carry an output-less cellbase - the honest candidate must be accepted, four candidates creating capacity anyway (DAO field recomputed for each) must be refused, and the replay must see nothing paid. For EVERY block of EVERY chain an independent replay (plain integer arithmetic over a cell map, written from the issuance rules) must reproduce: cellbase capacity = primary(t) + g2(t)*U(t-1)/C(t-1) + sum(fee - floor(fee*4/10)) over t's commits + sum floor(fee*4/10) over commits in (t+close..t+far) whose first proposer inside their window is t, for t = n - 5 (nothing before block 6); cellbase lock = t's miner lock; DAO field (C, AR, S, U) = accumulation rule on the parent; U = occupied capacity of the live cells; live capacity + rewards and fee shares still to be paid = C - S.",
         assumptions: &["no NervosDAO deposits / withdrawals (the world's genesis has no DAO script): the withdrawal formula is not exercised", "issuance halving and dynamic epoch lengths are C07's subject", "the genesis DAO field is the initial condition"],
         bounds: json!({"main_chain_blocks": 22, "fork_blocks": 10}),
     }
@@ -393,5 +406,86 @@ pub fn run(ctx: &Ctx) -> Report {
     if let Err(e) = go() {
         report.machinery_errors.push(e);
     }
+    if let Err(e) = unissuable_family(ctx, &mut report) {
+        report.machinery_errors.push(format!("unissuable-reward family: {e}"));
+    }
     report
+}
+
+/// "Nothing else mints", the branch honest miners never take: a world with a block reward of about
+/// 100 CKB in which block 1 names a miner lock whose cell would need 741 CKB.  The reward of block 1
+/// cannot be issued: the block that finalises it must carry a cellbase without outputs.  The honest
+/// candidate and candidates that create capacity anyway (each with the DAO field computed for the
+/// block as it is, so that the reward rule is the only one broken) are judged by the node.
+fn unissuable_family(ctx: &Ctx, report: &mut Report) -> Result<(), String> {
+    const SMALL: u64 = 400_0000_0003;
+    let mut w = WorldOpts::default();
+    w.primary_epoch_reward = Some(SMALL);
+    let cons = consensus(&w);
+    set_time(time_for_height(60));
+    let mut forge = Forge::new(&ctx.scratch.join("c06-unissuable-forge"), &cons)?;
+    let delay = cons.finalization_delay_length();
+    for big_at in [1u64, 2] {
+        let mut chain = vec![cons.genesis_block().clone()];
+        let mut parent = cons.genesis_hash();
+        // blocks 1 .. big_at+delay-1; the next block finalises block `big_at`
+        for n in 1..big_at + delay {
+            let spec = BlockSpec { miner: if n == big_at { 240 } else { (n % 5) as u8 + 1 }, ts_offset: 3 + big_at, ..Default::default() };
+            let b = forge.build_on(&parent, &spec)?;
+            parent = b.hash();
+            chain.push(b);
+        }
+        let spec = BlockSpec { miner: 7, ts_offset: 3 + big_at, ..Default::default() };
+        let honest = forge.build_on(&parent, &spec)?;
+        let cb = honest.transactions()[0].clone();
+        if !cb.outputs().is_empty() {
+            return Err(format!("the world does not reach the branch: the honest cellbase finalising block {big_at} has outputs"));
+        }
+        let target_lock = crate::forge::miner_lock(240);
+        let out = |cap: u64, lock: packed::Script| cb.as_advanced_builder().output(packed::CellOutput::new_builder().capacity(ckb_types::core::Capacity::shannons(cap)).lock(lock).build()).output_data(ckb_types::bytes::Bytes::new().pack()).build();
+        let cell_needs = occupied(&packed::CellOutput::new_builder().lock(target_lock.clone()).build(), 0);
+        let candidates: Vec<(&str, TransactionView)> = vec![
+            ("1 000 000 CKB to another lock", out(1_000_000 * 100_000_000, crate::forge::miner_lock(9))),
+            ("61 CKB (a minimal cell) to another lock", out(61 * 100_000_000, crate::forge::miner_lock(9))),
+            ("exactly the cell's occupied capacity to the target's lock", out(cell_needs, target_lock.clone())),
+            ("the cell's occupied capacity + 1 000 CKB to the target's lock", out(cell_needs + 1_000 * 100_000_000, target_lock.clone())),
+        ];
+        for (name, cellbase) in candidates {
+            let cand = forge.build_on_with_cellbase(&parent, &spec, cellbase)?;
+            forge.known.remove(&cand.hash());
+            let label = json!({"family": "unissuable-reward", "unissuable_block": big_at, "candidate": name});
+            report.evaluations += 1;
+            report.transitions += 1;
+            match forge.node().process(&cand) {
+                Err(_) => {
+                    report.nontrivial.insert(fp(&("unissuable", big_at, name)));
+                }
+                Ok(_) => {
+                    report.violation("reward/unissuable-reward-minted", format!("block {} finalises block {big_at}, whose reward cannot hold a cell of its miner's lock ({cell_needs} shannons needed); a cellbase creating {name} was accepted", big_at + delay), label);
+                    // (the forge now stands on a minting block: the family ends here)
+                    return Ok(());
+                }
+            }
+            if forge.node().tip().hash() != parent {
+                report.violation("reward/unissuable-reward-minted", format!("after the refused candidate ({name}) the tip is not the parent"), json!({"family": "unissuable-reward"}));
+            }
+        }
+        // the honest block is accepted and the replay agrees (nothing paid, amount burnt)
+        match forge.node().process(&honest) {
+            Ok(true) => {}
+            other => report.violation("reward/unissuable-honest-refused", format!("the empty cellbase finalising block {big_at} was answered {:?}", other.map_err(|e| e.to_string())), json!({"family": "unissuable-reward", "unissuable_block": big_at})),
+        }
+        chain.push(honest.clone());
+        // two more blocks so that conservation is judged past the burnt reward
+        let mut p2 = honest.hash();
+        forge.learn(&honest);
+        for n in 0..2u64 {
+            let b = forge.build_on(&p2, &BlockSpec { miner: 3, ts_offset: 3 + big_at + n, ..Default::default() })?;
+            p2 = b.hash();
+            chain.push(b);
+        }
+        replay_with(&cons, &chain, "unissuable", &json!({"chain": "unissuable-reward", "unissuable_block": big_at}), report, SMALL);
+        report.outcomes.insert(fp(&("unissuable", big_at)));
+    }
+    Ok(())
 }
